@@ -3,6 +3,7 @@ Tie, continued (see Props/Tie/DifflibGen.lean): statements for ALL inputs relati
 `GoSnaps.Generated.DifflibGen` of /repo/internal/difflib/difflib.go to the hand port `GoSnaps.Difflib`.
 
   5. GetGroupedOpCodes relative to getOpCodes (`GetGroupedOpCodes_agrees`)
+  6. chainB / NewMatcher: the `b2j` map agrees with `Difflib.b2j` for every element (`NewMatcher_b2j_agrees`)
 -/
 import GoSnaps.Props.Tie.DifflibGen
 namespace GoSnaps.Tie.DifflibGen
@@ -251,5 +252,251 @@ theorem GetGroupedOpCodes_agrees (fuel : Nat) (m m' : Matcher) (a b : List (List
     sequenceMatcher_GetGroupedOpCodes fuel m (n : Int) = some ((Difflib.getGroupedOpCodes a b n).map (·.map opI)) := by
   rw [GetGroupedOpCodes_closed fuel m m' _ (n : Int) (by omega) h, groupI_opI]
   rfl
+
+/-! ## 6. chainB: b2j -/
+
+section maps
+variable {κ ν : Type} [DecidableEq κ]
+
+theorem mapGet_mapSet (m : List (κ × ν)) (k x : κ) (v z : ν) :
+    GoDiff.mapGet (GoDiff.mapSet m k v) x z = if k = x then v else GoDiff.mapGet m x z := by
+  induction m with
+  | nil => simp [GoDiff.mapSet, GoDiff.mapGet]
+  | cons p r ih =>
+    obtain ⟨k', v'⟩ := p
+    by_cases h : k' = k
+    · subst h; by_cases hx : k' = x <;> simp [GoDiff.mapSet, GoDiff.mapGet, hx]
+    · by_cases hx : k' = x
+      · subst hx; simp [GoDiff.mapSet, GoDiff.mapGet, h]; intro e; exact absurd e.symm h
+      · simp [GoDiff.mapSet, GoDiff.mapGet, h, hx, ih]
+
+theorem keys_mapSet (m : List (κ × ν)) (k : κ) (v : ν) :
+    (GoDiff.mapSet m k v).map Prod.fst = if k ∈ m.map Prod.fst then m.map Prod.fst else m.map Prod.fst ++ [k] := by
+  induction m with
+  | nil => simp [GoDiff.mapSet]
+  | cons p r ih =>
+    obtain ⟨k', v'⟩ := p
+    by_cases h : k' = k
+    · subst h; simp [GoDiff.mapSet]
+    · have h' : ¬ k = k' := fun e => h e.symm
+      simp only [GoDiff.mapSet, h, if_false, List.map_cons, ih, List.mem_cons, h', false_or]
+      split <;> simp
+
+theorem nodup_mapSet (m : List (κ × ν)) (k : κ) (v : ν) (h : (m.map Prod.fst).Nodup) :
+    ((GoDiff.mapSet m k v).map Prod.fst).Nodup := by
+  rw [keys_mapSet]
+  split
+  · exact h
+  · rename_i hk
+    rw [List.nodup_append]
+    refine ⟨h, by simp, ?_⟩
+    intro a ha b hb
+    simp at hb; subst hb
+    intro e; subst e; exact hk ha
+
+theorem mapGet_of_mem (m : List (κ × ν)) (h : (m.map Prod.fst).Nodup) (x : κ) (v z : ν) (hm : (x, v) ∈ m) :
+    GoDiff.mapGet m x z = v := by
+  induction m with
+  | nil => simp at hm
+  | cons p r ih =>
+    obtain ⟨k', v'⟩ := p
+    simp only [List.map_cons, List.nodup_cons] at h
+    simp only [List.mem_cons, Prod.mk.injEq] at hm
+    rcases hm with ⟨e1, e2⟩ | hm
+    · subst e1 e2; simp [GoDiff.mapGet]
+    · have : k' ≠ x := by
+        intro e; subst e; exact h.1 (List.mem_map.mpr ⟨(k', v), hm, rfl⟩)
+      simp [GoDiff.mapGet, this, ih h.2 hm]
+
+theorem mapGet_of_not_key (m : List (κ × ν)) (x : κ) (z : ν) (h : x ∉ m.map Prod.fst) :
+    GoDiff.mapGet m x z = z := by
+  induction m with
+  | nil => rfl
+  | cons p r ih =>
+    obtain ⟨k', v'⟩ := p
+    simp only [List.map_cons, List.mem_cons, not_or] at h
+    have : k' ≠ x := fun e => h.1 e.symm
+    simp [GoDiff.mapGet, this, ih h.2]
+
+theorem mapGet_mapDel (m : List (κ × ν)) (k x : κ) (z : ν) :
+    GoDiff.mapGet (GoDiff.mapDel m k) x z = if x = k then z else GoDiff.mapGet m x z := by
+  induction m with
+  | nil => simp [GoDiff.mapDel, GoDiff.mapGet]
+  | cons p r ih =>
+    obtain ⟨k', v'⟩ := p
+    unfold GoDiff.mapDel at ih ⊢
+    by_cases h : k' = k
+    · subst h
+      simp only [List.filter_cons, decide_true, Bool.not_true, Bool.false_eq_true, if_false, ih]
+      by_cases hx : x = k' <;> simp [GoDiff.mapGet, hx]
+      intro e; exact absurd e.symm hx
+    · simp only [List.filter_cons, h, decide_false, Bool.not_false, if_true, GoDiff.mapGet]
+      by_cases hx : k' = x
+      · subst hx; simp [h]
+      · simp [hx, ih]
+
+theorem mapGet_foldl_mapDel (ks : List κ) (m : List (κ × ν)) (x : κ) (z : ν) :
+    GoDiff.mapGet (ks.foldl GoDiff.mapDel m) x z = if x ∈ ks then z else GoDiff.mapGet m x z := by
+  induction ks generalizing m with
+  | nil => simp
+  | cons k r ih =>
+    rw [List.foldl_cons, ih, mapGet_mapDel]
+    by_cases h1 : x ∈ r <;> by_cases h2 : x = k <;> simp [h1, h2]
+
+theorem mem_setAdd (s : List κ) (k x : κ) : x ∈ GoDiff.setAdd s k ↔ x ∈ s ∨ x = k := by
+  unfold GoDiff.setAdd
+  split
+  · rename_i h; constructor
+    · exact Or.inl
+    · rintro (h' | h'); exact h'; subst h'; exact h
+  · simp
+
+end maps
+
+/-- one iteration of the first loop of `chainB`: `b2j[elt] = append(b2j[elt], i)` -/
+def buildStep (B : List (List UInt8 × List Int)) (p : Int × List UInt8) : List (List UInt8 × List Int) :=
+  GoDiff.mapSet B p.2 (GoDiff.mapGet B p.2 [] ++ [p.1])
+
+/-- one iteration of the loop collecting the popular elements -/
+def popStep (nt : Int) (P : List (List UInt8)) (p : List UInt8 × List Int) : List (List UInt8) :=
+  if GoSem.len p.2 > nt then GoDiff.setAdd P p.1 else P
+
+theorem forIn_id_yield {α β : Type} (l : List α) (f : β → α → β) (init : β) :
+    (forIn (m := Id) l init (fun x s => (ForInStep.yield (f s x) : Id (ForInStep β)))) = l.foldl f init := by
+  induction l generalizing init with
+  | nil => rfl
+  | cons x xs ih => rw [List.forIn_cons]; exact ih _
+
+theorem build_get (l : List (List UInt8)) (k : Nat) (init : List (List UInt8 × List Int)) (x : List UInt8) :
+    GoDiff.mapGet ((GoSem.enumFrom (k : Int) l).foldl buildStep init) x [] =
+      GoDiff.mapGet init x [] ++ (Difflib.indicesFrom x l k).map (fun (i : Nat) => (i : Int)) := by
+  induction l generalizing k init with
+  | nil => simp [GoSem.enumFrom, Difflib.indicesFrom]
+  | cons y ys ih =>
+    have e : ((k : Int) + 1) = ((k + 1 : Nat) : Int) := by omega
+    rw [GoSem.enumFrom, List.foldl_cons, e, ih, Difflib.indicesFrom]
+    simp only [buildStep, mapGet_mapSet]
+    by_cases h : y = x <;> simp [h]
+
+theorem build_nodup (l : List (List UInt8)) (k : Int) (init : List (List UInt8 × List Int))
+    (h : (init.map Prod.fst).Nodup) : (((GoSem.enumFrom k l).foldl buildStep init).map Prod.fst).Nodup := by
+  induction l generalizing k init with
+  | nil => simpa [GoSem.enumFrom] using h
+  | cons y ys ih => rw [GoSem.enumFrom, List.foldl_cons]; exact ih _ _ (nodup_mapSet _ _ _ h)
+
+theorem mem_popular (nt : Int) (B : List (List UInt8 × List Int)) (P : List (List UInt8)) (x : List UInt8) :
+    x ∈ B.foldl (popStep nt) P ↔ x ∈ P ∨ ∃ idx, (x, idx) ∈ B ∧ GoSem.len idx > nt := by
+  induction B generalizing P with
+  | nil => simp
+  | cons p r ih =>
+    obtain ⟨s, idx⟩ := p
+    rw [List.foldl_cons, ih]
+    unfold popStep
+    by_cases h : GoSem.len idx > nt
+    · simp only [h, if_true, mem_setAdd, List.mem_cons, Prod.mk.injEq]
+      constructor
+      · rintro ((h1 | h1) | ⟨i, h1, h2⟩)
+        · exact Or.inl h1
+        · exact Or.inr ⟨idx, Or.inl ⟨h1, rfl⟩, h⟩
+        · exact Or.inr ⟨i, Or.inr h1, h2⟩
+      · rintro (h1 | ⟨i, (⟨e1, e2⟩ | h1), h2⟩)
+        · exact Or.inl (Or.inl h1)
+        · exact Or.inl (Or.inr e1)
+        · exact Or.inr ⟨i, h1, h2⟩
+    · simp only [h, if_false, List.mem_cons, Prod.mk.injEq]
+      constructor
+      · rintro (h1 | ⟨i, h1, h2⟩)
+        · exact Or.inl h1
+        · exact Or.inr ⟨i, Or.inr h1, h2⟩
+      · rintro (h1 | ⟨i, (⟨e1, e2⟩ | h1), h2⟩)
+        · exact Or.inl h1
+        · subst e2; exact absurd h2 h
+        · exact Or.inr ⟨i, h1, h2⟩
+
+/-- with distinct keys and a non-negative threshold: some entry of key x is longer than nt iff `B[x]` is -/
+theorem popular_iff (nt : Int) (hnt : 0 ≤ nt) (B : List (List UInt8 × List Int)) (hB : (B.map Prod.fst).Nodup) (x : List UInt8) :
+    (∃ idx, (x, idx) ∈ B ∧ GoSem.len idx > nt) ↔ GoSem.len (GoDiff.mapGet B x []) > nt := by
+  constructor
+  · rintro ⟨idx, h1, h2⟩; rw [mapGet_of_mem B hB x idx [] h1]; exact h2
+  · intro h
+    by_cases hk : x ∈ B.map Prod.fst
+    · obtain ⟨⟨k, idx⟩, hm, e⟩ := List.mem_map.mp hk
+      simp only at e; subst e
+      refine ⟨idx, hm, ?_⟩
+      rw [mapGet_of_mem B hB k idx [] hm] at h; exact h
+    · rw [mapGet_of_not_key B x [] hk] at h
+      simp [GoSem.len] at h; omega
+
+/-- the `b2j` field `chainB` computes from `b` -/
+def chainB_b2j (b : List (List UInt8)) : List (List UInt8 × List Int) :=
+  let B := (GoSem.enum b).foldl buildStep []
+  if GoSem.len b ≥ 200 then (B.foldl (popStep ((GoSem.len b).tdiv 100 + 1)) []).foldl GoDiff.mapDel B else B
+
+theorem chainB_fields (m : Matcher) :
+    (sequenceMatcher_chainB m).b2j = chainB_b2j m.b ∧ (sequenceMatcher_chainB m).a = m.a ∧
+      (sequenceMatcher_chainB m).b = m.b ∧ (sequenceMatcher_chainB m).bJunk = [] ∧
+      (sequenceMatcher_chainB m).matchingBlocks = m.matchingBlocks ∧ (sequenceMatcher_chainB m).opCodes = m.opCodes := by
+  unfold sequenceMatcher_chainB chainB_b2j
+  simp only [Id.run, bind, pure, Bool.true_and]
+  have e1 : ∀ (B : List (List UInt8 × List Int)),
+      (forIn (m := Id) (GoSem.enum m.b) B fun x __s =>
+        (ForInStep.yield (GoDiff.mapSet __s x.snd (GoDiff.mapGet __s x.snd [] ++ [x.fst])) : Id _)) =
+      (GoSem.enum m.b).foldl buildStep B := fun B => forIn_id_yield _ buildStep B
+  have e2 : ∀ (nt : Int) (B : List (List UInt8 × List Int)) (P : List (List UInt8)),
+      (forIn (m := Id) B P fun x __s =>
+        if decide (GoSem.len x.snd > nt) = true then (ForInStep.yield (GoDiff.setAdd __s x.fst) : Id _)
+        else ForInStep.yield __s) = B.foldl (popStep nt) P := by
+    intro nt B P
+    rw [← forIn_id_yield B (popStep nt) P]
+    congr 1; funext x s; unfold popStep
+    by_cases h : GoSem.len x.snd > nt <;> simp [h]
+  have e3 : ∀ (P : List (List UInt8)) (B : List (List UInt8 × List Int)),
+      (forIn (m := Id) P B fun s __s => (ForInStep.yield (GoDiff.mapDel __s s) : Id _)) = P.foldl GoDiff.mapDel B :=
+    fun P B => forIn_id_yield P GoDiff.mapDel B
+  by_cases h : GoSem.len m.b ≥ 200
+  · simp only [h, decide_true, if_true, e1, e2, e3, and_self]
+  · simp only [h, decide_false, Bool.false_eq_true, if_false, e1, and_self]
+
+/-- **chainB's b2j agrees with the hand port for every element** (including the popularity purge) -/
+theorem chainB_b2j_agrees (b : List (List UInt8)) (x : List UInt8) :
+    GoDiff.mapGet (chainB_b2j b) x [] = (Difflib.b2j b x).map (fun (i : Nat) => (i : Int)) := by
+  unfold chainB_b2j Difflib.b2j
+  have hget : ∀ y, GoDiff.mapGet ((GoSem.enum b).foldl buildStep []) y [] =
+      (Difflib.indicesFrom y b 0).map (fun (i : Nat) => (i : Int)) := by
+    intro y
+    have := build_get b 0 [] y
+    simpa [GoSem.enum, GoDiff.mapGet] using this
+  have hnd := build_nodup b 0 [] (by simp)
+  rw [show (GoSem.enumFrom 0 b) = GoSem.enum b from rfl] at hnd
+  simp only []
+  by_cases h200 : GoSem.len b ≥ 200
+  · have h200' : 200 ≤ b.length := by simp [GoSem.len] at h200; omega
+    have hnt : (GoSem.len b).tdiv 100 + 1 = ((b.length / 100 + 1 : Nat) : Int) := by
+      simp [GoSem.len]
+    have hmem : x ∈ ((GoSem.enum b).foldl buildStep []).foldl (popStep ((GoSem.len b).tdiv 100 + 1)) [] ↔
+        ((Difflib.indicesFrom x b 0).length : Int) > ((b.length / 100 + 1 : Nat) : Int) := by
+      rw [mem_popular, popular_iff _ (by rw [hnt]; omega) _ hnd, hget, hnt]
+      simp [GoSem.len]
+    simp only [h200, if_true, mapGet_foldl_mapDel, h200', true_and]
+    by_cases hp : b.length / 100 + 1 < (Difflib.indicesFrom x b 0).length
+    · rw [if_pos (hmem.mpr (by omega)), if_pos hp]; rfl
+    · rw [if_neg (fun hh => hp (by have := hmem.mp hh; omega)), if_neg hp, hget]
+  · have h200' : ¬ 200 ≤ b.length := by simp [GoSem.len] at h200; omega
+    simp only [h200, if_false, hget, h200', false_and]
+
+/-- the fields of the matcher `NewMatcher(a, b)` builds -/
+theorem NewMatcher_fields (a b : List (List UInt8)) :
+    (NewMatcher a b).b2j = chainB_b2j b ∧ (NewMatcher a b).a = a ∧ (NewMatcher a b).b = b ∧
+      (NewMatcher a b).bJunk = [] ∧ (NewMatcher a b).matchingBlocks = none ∧ (NewMatcher a b).opCodes = none := by
+  unfold NewMatcher sequenceMatcher_setSeqs sequenceMatcher_setSeq2 sequenceMatcher_setSeq1
+  simp only [Id.run, bind, pure]
+  obtain ⟨h1, h2, h3, h4, h5, h6⟩ := chainB_fields
+    { a := a, b := b, matchingBlocks := none, opCodes := none, fullBCount := [] }
+  exact ⟨h1, h2, h3, h4, h5, h6⟩
+
+/-- **after `NewMatcher(a, b)` the generated `b2j` map agrees with the hand port's `b2j` for every element** -/
+theorem NewMatcher_b2j_agrees (a b : List (List UInt8)) (x : List UInt8) :
+    GoDiff.mapGet (NewMatcher a b).b2j x [] = (Difflib.b2j b x).map (fun (i : Nat) => (i : Int)) := by
+  rw [(NewMatcher_fields a b).1, chainB_b2j_agrees]
 
 end GoSnaps.Tie.DifflibGen
